@@ -13,8 +13,17 @@ variable {E : ErrClass → Prop}
 /-- the value-dependent failures (property text: "index out of range, division by zero, …, budget") -/
 def ValueDep (e : ErrClass) : Prop := e = .divzero ∨ e = .index ∨ e = .budget
 
-/-- a slice (or array) value whose elements have scalar kind `k` -/
-def ArrOf (v : Val) (k : RKind) : Prop := ∃ et xs, v = .arr et xs ∧ ∀ x ∈ xs, ValOfK x k
+/-- the element tag a Go slice of scalars of kind `k` carries (`[]int`, `[]string`, `[]bool`) -/
+def tagOf : RKind → Option ElemT
+  | .bool => some .bool
+  | .string => some .str
+  | .num k => some (.num k)
+  | _ => none
+
+/-- a slice (or array) value of element kind `k`: the dynamic element type is the static one (so the
+`[]interface{}` that `filter` / `map` build does *not* count as a `[]int`), and every element has kind `k` -/
+def ArrOf (v : Val) (k : RKind) : Prop :=
+  ∃ et xs, v = .arr et xs ∧ tagOf k = some et ∧ ∀ x ∈ xs, ValOfK x k
 
 /-- value types of the extended fragment: a scalar, or a slice of scalars -/
 inductive VTy where
@@ -133,7 +142,7 @@ theorem fetchV_arr {a b : Val} {k : RKind} {ki : Kind} (hi : E .index) (ha : Arr
     match fetchV a b false with
     | .ok v => ValOfK v k
     | .error e => E e := by
-  obtain ⟨et, xs, rfl, hxs⟩ := ha
+  obtain ⟨et, xs, rfl, _, hxs⟩ := ha
   obtain ⟨n, hn⟩ := toIntR_num hb
   simp only [fetchV, hn]
   by_cases hr : 0 ≤ n ∧ n < (xs.length : Int)
@@ -279,7 +288,7 @@ theorem lengthV_ok {v : Val} {V : VTy} (hV : V = .sc .string ∨ ∃ k, V = .sl 
     ∃ n, lengthV v = .ok n := by
   rcases hV with rfl | ⟨k, rfl⟩
   · obtain ⟨x, rfl⟩ := hv; exact ⟨_, rfl⟩
-  · obtain ⟨et, xs, rfl, _⟩ := hv; exact ⟨_, rfl⟩
+  · obtain ⟨et, xs, rfl, _, _⟩ := hv; exact ⟨_, rfl⟩
 
 theorem spec2_len (cfg : CheckCfg) (c : SCfg) (cs : List OTy) (m : Meta) (a : Node)
     (iha : Spec2 E cfg c cs a)
@@ -404,7 +413,7 @@ theorem spec2_in (cfg : CheckCfg) (c : SCfg) (cs : List OTy) (m : Meta) (op : St
           match (((SM.lift (inV a b)).bind' fun r => pure (Val.bool (if neg then !r else r)) : SM Val) s').1 with
           | .ok v => ValOfV v (.sc .bool) | .error e => E e := by
         intro neg a b s' _ hb
-        obtain ⟨et, xs, rfl, _⟩ := hb
+        obtain ⟨et, xs, rfl, _, _⟩ := hb
         simp only [inV, SM.lift, SM.bind', SM.pure', pure]
         exact ⟨_, rfl⟩
       rcases hop with rfl | rfl
@@ -503,7 +512,7 @@ theorem spec2_range (hb : E .budget) (cfg : CheckCfg) (c : SCfg) (cs : List OTy)
             (if c.rangeSizeSigned = true then hi' - lo + 1 else if hi' - lo + 1 < 0 then 0 else hi' - lo + 1)
             (rangeElems lo hi').length s' with he | ⟨s'', he⟩
         · rw [he]; exact hb
-        · rw [he]; exact ⟨_, _, rfl, rangeElems_ints lo hi'⟩
+        · rw [he]; exact ⟨_, _, rfl, rfl, rangeElems_ints lo hi'⟩
       · cases hrule
 
 /-! ### the loops of the collection builtins -/
@@ -614,12 +623,135 @@ theorem loopIdx_spec_eq {α : Type} (Inv : α → Prop) (Res : Val → Prop) (bo
   have := loopIdx_spec (E := E) Inv Res body hbody fuel i acc s h0
   rw [h] at this; exact this
 
-/-
-Not done here: the final assembly for the collection builtins (`all none any one count filter map`):
-the loop lemmas above (`loopIdx_spec`, `loopThen_spec`, `predStep_spec`, `body_at`) are what it needs; the
-remaining work is to bring `Spec.eval` on a builtin node into the `loopThen (predStep …)` form (an
-equation that holds by `rfl` after `simp only [eval]`, checked for `all`) and the induction over the
-extended fragment (`Spec2` for unary / binary / conditional through `spec2_to_frag` / `frag_to_spec2`).
--/
+/-! ### the predicate builtins `all none any one count` in loop form -/
+
+def evalPredLoop (c : SCfg) (ctx : Ctx) (a b : Node) (t f : Unit ⊕ Val) (dflt : Val) : SM Val := do
+  let coll ← eval c ctx a
+  let n ← SM.lift (lengthV coll)
+  match ← loopIdx (predStep c ctx coll b t f) n.toNat 0 () with
+  | .inl _ => pure dflt
+  | .inr v => pure v
+
+def countStep (c : SCfg) (ctx : Ctx) (coll : Val) (b : Node) : Nat → Int → SM (Int ⊕ Val) :=
+  fun i k => do
+    if ← asBool (← eval c ((coll, (i : Int)) :: ctx) b) then pure (.inl (k + 1)) else pure (.inl k)
+
+def evalCountLoop (c : SCfg) (ctx : Ctx) (a b : Node) (isOne : Bool) : SM Val := do
+  let coll ← eval c ctx a
+  let n ← SM.lift (lengthV coll)
+  match ← loopIdx (countStep c ctx coll b) n.toNat 0 (0 : Int) with
+  | .inl k => if isOne then pure (.bool (k == 1)) else pure (.int .int k)
+  | .inr v => pure v
+
+theorem eval_all (c : SCfg) (ctx : Ctx) (m : Meta) (a b : Node) :
+    eval c ctx (.builtin m "all" [a, b]) = evalPredLoop c ctx a b (.inl ()) (.inr (.bool false)) (.bool true) := by
+  simp (config := {decide := true}) only [eval, builtinNames, List.contains, List.elem, if_true, if_false]
+  rfl
+
+theorem eval_none (c : SCfg) (ctx : Ctx) (m : Meta) (a b : Node) :
+    eval c ctx (.builtin m "none" [a, b]) = evalPredLoop c ctx a b (.inr (.bool false)) (.inl ()) (.bool true) := by
+  simp (config := {decide := true}) only [eval, builtinNames, List.contains, List.elem, if_true, if_false]
+  rfl
+
+theorem eval_any (c : SCfg) (ctx : Ctx) (m : Meta) (a b : Node) :
+    eval c ctx (.builtin m "any" [a, b]) = evalPredLoop c ctx a b (.inr (.bool true)) (.inl ()) (.bool false) := by
+  simp (config := {decide := true}) only [eval, builtinNames, List.contains, List.elem, if_true, if_false]
+  rfl
+
+theorem eval_one (c : SCfg) (ctx : Ctx) (m : Meta) (a b : Node) :
+    eval c ctx (.builtin m "one" [a, b]) = evalCountLoop c ctx a b true := by
+  simp (config := {decide := true}) only [eval, builtinNames, List.contains, List.elem, if_true, if_false]
+  rfl
+
+theorem eval_count (c : SCfg) (ctx : Ctx) (m : Meta) (a b : Node) :
+    eval c ctx (.builtin m "count" [a, b]) = evalCountLoop c ctx a b false := by
+  simp (config := {decide := true}) only [eval, builtinNames, List.contains, List.elem, if_true, if_false]
+  rfl
+
+/-- the body of a predicate builtin at element `i`: a boolean or a tolerated failure -/
+theorem body_bool {cs : List OTy} {collT : OTy} {k : RKind} (c : SCfg) (b : Node)
+    (hk : sliceElemKind collT = some k)
+    (hbody : EvalOKV E (CtxFor (collT :: cs)) c b (.sc .bool))
+    (coll : Val) (hcoll : ArrOf coll k) (ctx : Ctx) (i : Nat) (s : SState) :
+    ResOK E isBoolVal (eval c ((coll, (i : Int)) :: ctx) b s).1 :=
+  body_at c b (.sc .bool) hk hbody coll hcoll (i : Int) ctx s
+
+theorem evalPredLoop_spec {cs : List OTy} {collT : OTy} {k : RKind} (c : SCfg) (a b : Node)
+    (t f : Unit ⊕ Val) (dflt : Val)
+    (ht : ∀ v, t = .inr v → isBoolVal v) (hf : ∀ v, f = .inr v → isBoolVal v) (hd : isBoolVal dflt)
+    (hk : sliceElemKind collT = some k)
+    (ha : EvalOKV E (CtxFor cs) c a (.sl k))
+    (hbody : EvalOKV E (CtxFor (collT :: cs)) c b (.sc .bool))
+    (ctx : Ctx) (hctx : CtxFor cs ctx) (s : SState) :
+    ResOK E isBoolVal (evalPredLoop c ctx a b t f dflt s).1 := by
+  have h1 := ha ctx hctx s
+  simp only [evalPredLoop, bind]
+  unfold SM.bind'
+  rcases hea : eval c ctx a s with ⟨ra, s1⟩
+  rw [hea] at h1
+  cases ra with
+  | error e => exact h1
+  | ok coll =>
+    simp only [] at h1 ⊢
+    have hcoll : ArrOf coll k := h1
+    obtain ⟨et, xs, rfl, _, _⟩ := h1
+    simp only [lengthV, SM.lift, SM.pure']
+    rcases hloop : loopIdx (predStep c ctx (Val.arr et xs) b t f) (↑xs.length : Int).toNat 0 () s1 with ⟨r, s2⟩
+    have hs := loopIdx_spec_eq (E := E) (fun _ : Unit => True) isBoolVal _
+      (fun i acc s' h => predStep_spec c ctx _ b t f ht hf (body_bool c b hk hbody _ hcoll ctx) i acc s' h)
+      _ _ _ _ _ _ hloop trivial
+    cases r with
+    | error e => exact hs
+    | ok x =>
+      cases x with
+      | inl u => exact hd
+      | inr w => exact hs
+
+theorem countStep_spec (c : SCfg) (ctx : Ctx) (coll : Val) (b : Node)
+    (hb : ∀ (i : Nat) s, ResOK E isBoolVal (eval c ((coll, (i : Int)) :: ctx) b s).1)
+    (i : Nat) (acc : Int) (s : SState) (_ : True) :
+    StepOK E (fun _ : Int => True) (fun _ => False) (countStep c ctx coll b i acc s).1 := by
+  have h := hb i s
+  simp only [countStep, bind]
+  unfold SM.bind'
+  rcases hev : eval c ((coll, (i : Int)) :: ctx) b s with ⟨r, s1⟩
+  rw [hev] at h
+  cases r with
+  | error e => exact h
+  | ok v =>
+    obtain ⟨x, rfl⟩ := h
+    cases x <;> simp only [asBool, SM.pure', pure] <;> trivial
+
+theorem evalCountLoop_spec {cs : List OTy} {collT : OTy} {k : RKind} (c : SCfg) (a b : Node) (isOne : Bool)
+    (hk : sliceElemKind collT = some k)
+    (ha : EvalOKV E (CtxFor cs) c a (.sl k))
+    (hbody : EvalOKV E (CtxFor (collT :: cs)) c b (.sc .bool))
+    (ctx : Ctx) (hctx : CtxFor cs ctx) (s : SState) :
+    ResOK E (fun v => if isOne then isBoolVal v else ValOfK v (.num .int)) (evalCountLoop c ctx a b isOne s).1 := by
+  have h1 := ha ctx hctx s
+  simp only [evalCountLoop, bind]
+  unfold SM.bind'
+  rcases hea : eval c ctx a s with ⟨ra, s1⟩
+  rw [hea] at h1
+  cases ra with
+  | error e => exact h1
+  | ok coll =>
+    simp only [] at h1 ⊢
+    have hcoll : ArrOf coll k := h1
+    obtain ⟨et, xs, rfl, _, _⟩ := h1
+    simp only [lengthV, SM.lift, SM.pure']
+    rcases hloop : loopIdx (countStep c ctx (Val.arr et xs) b) (↑xs.length : Int).toNat 0 (0 : Int) s1 with ⟨r, s2⟩
+    have hs := loopIdx_spec_eq (E := E) (fun _ : Int => True) (fun _ => False) _
+      (fun i acc s' h => countStep_spec c ctx _ b (body_bool c b hk hbody _ hcoll ctx) i acc s' h)
+      _ _ _ _ _ _ hloop trivial
+    cases r with
+    | error e => exact hs
+    | ok x =>
+      cases x with
+      | inl n =>
+        cases isOne
+        · exact ⟨_, rfl⟩
+        · exact ⟨_, rfl⟩
+      | inr w => exact absurd hs id
 
 end ExprModel
